@@ -5,6 +5,8 @@ cd "$(dirname "$0")/.."
 for d in ${@:-seeded/C*}; do
   [ -f "$d/patch.diff" ] || continue
   id=$(basename "$d"); prop=${id%%-*}
-  tools/verify_seeded.sh "$d" 2>&1 | tee "$d/verification.txt" | grep -E "^seeded=|CONFIRMED"
-  SKIP_TESTS=1 tools/run_mutant.sh "$d/patch.diff" $prop 2>&1 | grep "^MUTANT" | tee "$d/check-result.txt"
+  if [ "${SKIP_VERIFY:-0}" != 1 ] || ! grep -q "^  CONFIRMED" "$d/verification.txt" 2>/dev/null; then
+    tools/verify_seeded.sh "$d" 2>&1 | tee "$d/verification.txt" | grep -E "^seeded=|CONFIRMED"
+  fi
+  SKIP_TESTS=1 tools/run_mutant.sh "$d/patch.diff" $prop ${EXTRA_CHECKS:-} 2>&1 | grep "^MUTANT" | tee "$d/${RESULT_NAME:-check-result-final.txt}"
 done
